@@ -624,3 +624,8 @@ func paramIndex(fn *ssa.Function, pa *ssa.Parameter) int {
 	}
 	return -1
 }
+
+// isErrorType: the predeclared error interface.
+func isErrorType(t types.Type) bool {
+	return types.Identical(t, types.Universe.Lookup("error").Type())
+}
